@@ -66,7 +66,7 @@ type WatchCall struct {
 	N       int
 	At      time.Time
 	RV      string
-	Outcome string // "ok", "error", "hang"
+	Outcome string // "ok", "error", "error-deadline", "error-canceled", "hang"
 }
 
 type Server struct {
@@ -84,6 +84,13 @@ type Server struct {
 	ListBehave   func(n int) ListKind
 	WatchBehave  func(n int, rv string) string // "ok" | "error" | "hang"
 	WatchLatency func(n int) time.Duration
+	// AfterSnapshot runs inside the n-th List call right after its snapshot was
+	// taken (no lock held): changes it makes are newer than the list and
+	// reach the client through the watch at the moment the list returns
+	AfterSnapshot func(n int)
+	// BeforeWatch runs at the start of every Watch call (no lock held): changes
+	// it makes are the first thing the new stream delivers
+	BeforeWatch func(rv string)
 
 	Lists   []ListCall
 	Watches []WatchCall
@@ -250,6 +257,9 @@ func (s *Server) List(ctx context.Context, _ metav1.ListOptions) (runtime.Object
 	objs := s.objectsLocked()
 	s.mu.Unlock()
 	finish(v)
+	if s.AfterSnapshot != nil {
+		s.AfterSnapshot(n)
+	}
 	switch kind {
 	case ListErr:
 		return nil, ErrList
@@ -442,6 +452,9 @@ func (c *conn) run() {
 }
 
 func (s *Server) Watch(ctx context.Context, opts metav1.ListOptions) (watch.Interface, error) {
+	if s.BeforeWatch != nil {
+		s.BeforeWatch(opts.ResourceVersion)
+	}
 	s.mu.Lock()
 	s.nwatch++
 	n := s.nwatch
@@ -465,6 +478,11 @@ func (s *Server) Watch(ctx context.Context, opts metav1.ListOptions) (watch.Inte
 	switch behave {
 	case "error":
 		return nil, ErrWatch
+	case "error-deadline":
+		// a client-side dial timeout: a context error although nobody stopped the controller
+		return nil, context.DeadlineExceeded
+	case "error-canceled":
+		return nil, context.Canceled
 	case "hang":
 		<-ctx.Done()
 		return nil, ctx.Err()
@@ -554,6 +572,41 @@ func (s *Server) ReplayLast(k int) {
 		}
 		c.kick()
 	}
+}
+
+// ReplayStale makes every open stream deliver up to k old log entries that
+// contradict the server's current content, oldest first: deletes of objects
+// that exist again and creates/updates of objects that are gone (a server
+// that replays isolated frames of earlier history).  Returns how many.
+func (s *Server) ReplayStale(k int) int {
+	s.mu.Lock()
+	defer s.mu.Unlock()
+	var frames []Frame
+	seen := map[[2]int]bool{}
+	for _, e := range s.log {
+		key := [2]int{e.Obj.NS, e.Obj.NM}
+		_, exists := s.objects[key]
+		if seen[key] || (exists == (e.Type != watch.Deleted)) {
+			continue
+		}
+		seen[key] = true
+		frames = append(frames, Frame{Type: e.Type, Obj: e.Obj.Go().(runtime.Object)})
+		if len(frames) == k {
+			break
+		}
+	}
+	for _, c := range s.live() {
+		c.pending = append(c.pending, frames...)
+		c.kick()
+	}
+	return len(frames)
+}
+
+// ConnectError rotates through the kinds of connect error a Watch call can
+// return: an ordinary error, and the two context errors (as from a
+// client-side timeout) with the caller's context still live.
+func ConnectError(n int) string {
+	return []string{"error", "error-deadline", "error-canceled"}[n%3]
 }
 
 // DropNext makes every open stream silently skip its next k log entries.
